@@ -61,6 +61,12 @@ pub fn family() -> Vec<(&'static str, D)> {
         ("wsh-pkh-or", D::Wsh(T::OrD(Box::new(T::Check(Box::new(T::PkH("K3".into())))), Box::new(pk("K4"))))),
         ("wsh-andor-after", D::Wsh(T::AndOr(Box::new(pk("K1")), Box::new(T::After(10)), Box::new(pk("K2"))))),
         ("wsh-thresh-pkh", D::Wsh(T::Thresh(2, vec![T::Check(Box::new(T::PkH("K1".into()))), T::Alt(Box::new(pk("K2"))), T::Alt(Box::new(pk("K3")))]))),
+        // one preimage of each other hash kind (the PSBT keeps a map per kind)
+        (
+            "wsh-hash-kinds",
+            D::Wsh(T::AndV(v(pk("K1")), Box::new(T::AndV(v(T::Hash256("H1".into())), Box::new(T::AndV(v(T::Ripemd160("H2".into())), Box::new(T::Hash160("H3".into())))))))),
+        ),
+        ("tr-leaf-hash160", D::Tr("K1".into(), vec![(0, T::AndV(v(pk("K2")), Box::new(T::Hash160("H1".into()))))])),
         // a signed branch next to a signature-free one that needs a key only known by its hash
         (
             "wsh-pk-pkh-older",
@@ -597,6 +603,58 @@ fn explore_pair_mode(rep: &Report, name: &str, pair: &[D; 2], depth: usize, cfg:
                     viol("failed-finalize-altered-input".into(), format!("{:?} failed for input {} but changed it", a, i), &h2, json!({"result": format!("{:?}", r)}));
                 }
             }
+            // the by-value variants and the free functions are the same operation: same resulting PSBT
+            // (also on failure, where they hand the PSBT back), same verdict
+            if mode == 0 && a.is_finalize() {
+                use miniscript::psbt::PsbtExt;
+                let ser = |x: &Psbt| x.serialize();
+                let (by_value, verdict): (Psbt, bool) = match a {
+                    Act::Finalize => match p.clone().finalize(SECP256K1) {
+                        Ok(x) => (x, true),
+                        Err((x, _)) => (x, false),
+                    },
+                    Act::FinalizeMall => match p.clone().finalize_mall(SECP256K1) {
+                        Ok(x) => (x, true),
+                        Err((x, _)) => (x, false),
+                    },
+                    Act::FinalizeInp(i) => match p.clone().finalize_inp(SECP256K1, *i) {
+                        Ok(x) => (x, true),
+                        Err((x, _)) => (x, false),
+                    },
+                    Act::FinalizeInpMall(i) => match p.clone().finalize_inp_mall(SECP256K1, *i) {
+                        Ok(x) => (x, true),
+                        Err((x, _)) => (x, false),
+                    },
+                    _ => unreachable!(),
+                };
+                bump(&mut cen, "by_value_finalize_variants_compared");
+                if verdict != r.is_ok() || ser(&by_value) != ser(&q) {
+                    viol("by-value-finalize-differs".into(), format!("{:?}: the by-value variant returns ok = {} (in-place: {}) and {} PSBT", a, verdict, r.is_ok(), if ser(&by_value) == ser(&q) { "the same" } else { "a different" }), &h2, json!(null));
+                }
+                // the free functions stop at the first failing input; whatever they finalized must be what
+                // the in-place variant finalized, and they succeed exactly when it does
+                if matches!(a, Act::Finalize | Act::FinalizeMall) {
+                    let mut f = p.clone();
+                    #[allow(deprecated)]
+                    let fr = if matches!(a, Act::Finalize) { miniscript::psbt::finalize(&mut f, SECP256K1) } else { miniscript::psbt::finalize_mall(&mut f, SECP256K1) };
+                    bump(&mut cen, "free_finalize_functions_compared");
+                    let mut bad = fr.is_ok() != r.is_ok();
+                    for i in 0..2 {
+                        if is_final(&f, i) && input_bytes(&f, i) != input_bytes(&q, i) {
+                            bad = true;
+                        }
+                        if !is_final(&f, i) && input_bytes(&f, i) != input_bytes(&p, i) {
+                            bad = true;
+                        }
+                    }
+                    if fr.is_ok() && ser(&f) != ser(&q) {
+                        bad = true;
+                    }
+                    if bad {
+                        viol("free-finalize-function-differs".into(), format!("psbt::{} returned ok = {} (PsbtExt variant: {}) or left different inputs", if matches!(a, Act::Finalize) { "finalize" } else { "finalize_mall" }, fr.is_ok(), r.is_ok()), &h2, json!(null));
+                    }
+                }
+            }
             // result consistency
             match a {
                 Act::Finalize | Act::FinalizeMall => {
@@ -812,9 +870,20 @@ pub fn completeness_for_c02(rep: &Report, tier: Tier) -> Census {
     let mut jobs: Vec<(String, [D; 2], TxCfg)> = pairs.iter().map(|(a, b)| (format!("{}+{}", a, b), [relabel(&fam[idx(a)].1, 0), relabel(&fam[idx(b)].1, 1)], CFG_DEFAULT)).collect();
     // an input with a final sequence next to one that keeps nLockTime enabled: after() is unusable for the first only
     let mixed = TxCfg { name: "mixed-finality", seq0_final: true, ..CFG_DEFAULT };
+    jobs.push(("wsh-hash-kinds+tr-leaf-hash160".into(), [relabel(&fam[idx("wsh-hash-kinds")].1, 0), relabel(&fam[idx("tr-leaf-hash160")].1, 1)], CFG_DEFAULT));
     for (a, b) in [("wsh-andor-after", "wpkh"), ("wsh-or-after", "wsh-multi"), ("wsh-thresh-pkh", "wpkh")] {
         jobs.push((format!("{}+{}@mixed-finality", a, b), [relabel(&fam[idx(a)].1, 0), relabel(&fam[idx(b)].1, 1)], mixed));
         jobs.push((format!("{}+{}", a, b), [relabel(&fam[idx(a)].1, 0), relabel(&fam[idx(b)].1, 1)], CFG_DEFAULT));
+    }
+    // every transaction parameter set of C14: whether a locked branch is usable is the finalizer's own
+    // reading of version / sequence / lock time, and the witness search reads the same transaction
+    for (a, b) in [("wsh-or-older", "wsh-or-after"), ("tr-leaf-older", "wsh-hash-older")] {
+        for cfg in CFGS_LOCKS {
+            if cfg.name == "v2" {
+                continue;
+            }
+            jobs.push((format!("{}+{}@{}", a, b, cfg.name), [relabel(&fam[idx(a)].1, 0), relabel(&fam[idx(b)].1, 1)], cfg));
+        }
     }
     let results: Vec<(Census, u64, u64)> = jobs.par_iter().map(|(name, pair, cfg)| explore_pair_mode(rep, name, pair, depth, *cfg, 1)).collect();
     let mut cen = Census::new();
@@ -874,6 +943,7 @@ pub fn run(tier: Tier) -> i32 {
         ("tr-key", "wsh-or-malleable"),
         ("sh-wpkh", "bare-pk"),
         ("wsh-multi", "wsh-multi"),
+        ("wsh-hash-kinds", "tr-leaf-hash160"),
     ];
     if tier == Tier::Quick {
         for (a, b) in quick_pairs {
